@@ -47,6 +47,10 @@ type RecState struct {
 	LoginAuth func(req *logical.Request) *logical.Auth
 	// RevokeErr makes secret revocation fail at the backend.
 	RevokeErr error
+	// Tagger, when set, labels the physical operations issued while the
+	// backend runs a storage program ("prog" path) so that the harness can
+	// tell the backend's own storage traffic from the core's bookkeeping.
+	Tagger func(tag string)
 }
 
 func NewRecState() *RecState {
@@ -191,6 +195,46 @@ func (b *recBackend) HandleRequest(ctx context.Context, req *logical.Request) (*
 			},
 		}
 		return resp, nil
+	case req.Path == "prog":
+		// run the storage program named by the request: [{"op":"put|get|list|delete","key":"..."}]
+		ops, _ := req.Data["ops"].([]interface{})
+		var results []string
+		b.st.mu.Lock()
+		tagger := b.st.Tagger
+		b.st.mu.Unlock()
+		if tagger != nil {
+			tagger("prog")
+			defer tagger("")
+		}
+		for _, raw := range ops {
+			m, _ := raw.(map[string]interface{})
+			op, _ := m["op"].(string)
+			key, _ := m["key"].(string)
+			var err error
+			out := ""
+			switch op {
+			case "put":
+				err = req.Storage.Put(ctx, &logical.StorageEntry{Key: key, Value: []byte("PROG-VALUE")})
+			case "get":
+				var e *logical.StorageEntry
+				e, err = req.Storage.Get(ctx, key)
+				if e != nil {
+					out = string(e.Value)
+				}
+			case "delete":
+				err = req.Storage.Delete(ctx, key)
+			case "list":
+				var ks []string
+				ks, err = req.Storage.List(ctx, key)
+				out = strings.Join(ks, ",")
+			}
+			if err != nil {
+				results = append(results, "err:"+err.Error())
+			} else {
+				results = append(results, "ok:"+out)
+			}
+		}
+		return &logical.Response{Data: map[string]interface{}{"results": results}}, nil
 	case req.Path == "login" || strings.HasPrefix(req.Path, "login/"):
 		b.st.mu.Lock()
 		la := b.st.LoginAuth
